@@ -246,8 +246,11 @@ class Summariser:
                         self.env.pop(lam.args.args[0].arg, None)
                     else:
                         self.env[lam.args.args[0].arg] = saved
-        if isinstance(e, ast.Call) and isinstance(e.func, ast.Name) and \
-                e.func.id not in self.env:
+        if isinstance(e, ast.Call) and (
+                isinstance(e.func, ast.Name) and e.func.id not in self.env
+                or isinstance(e.func, ast.Call)):
+            # f(s) / partial(<regex>.sub, repl)(s) with a callable known
+            # statically (a table cell written out by the normaliser)
             cv = self.cev(e.func)
             if isinstance(cv, (FuncRef, PartialConst)):
                 r = self._apply_const_callable(cv, e)
